@@ -65,6 +65,9 @@ type Contract struct {
 type SpecFn struct {
 	Name   string
 	Params []string
+	PTypes []string // Go types of the parameters (recursive spec functions only)
+	Ret    string
+	Rec    bool
 	Body   *Expr
 	Src    string
 }
@@ -89,7 +92,7 @@ type ContractSet struct {
 
 var clauseKW = map[string]bool{"func": true, "requires": true, "ensures": true, "modifies": true, "panics": true,
 	"loop": true, "spec": true, "axiom": true, "typed": true, "trusted": true, "pure": true, "effects": true,
-	"ufun": true, "smtaxiom": true, "guarded_by": true, "deterministic": true, "recursion": true, "immutable": true, "pkg": true, "dominates": true, "tags": true}
+	"ufun": true, "smtaxiom": true, "rec": true, "guarded_by": true, "deterministic": true, "recursion": true, "immutable": true, "pkg": true, "dominates": true, "tags": true}
 
 var tagRe = regexp.MustCompile(`^@(C[0-9]{2,3}|pinned)$`)
 var labelRe = regexp.MustCompile(`^([A-Za-z_][A-Za-z0-9_.\-]*):$`)
@@ -195,6 +198,29 @@ func (cs *ContractSet) loadFile(path, repo string) error {
 				cs.byKey[c.Key] = c
 			}
 			cur = c
+		case "rec":
+			// rec name(a T, b U) R = expr
+			j := strings.Index(rest, "(")
+			k := strings.Index(rest, ")")
+			if j < 0 || k < j {
+				return fail(fmt.Errorf("bad rec definition"))
+			}
+			eqi := k + 1 + strings.Index(rest[k+1:], "=")
+			sf := &SpecFn{Name: strings.TrimSpace(rest[:j]), Rec: true, Ret: strings.TrimSpace(rest[k+1 : eqi]), Src: rest}
+			for _, p := range strings.Split(rest[j+1:k], ",") {
+				f := strings.Fields(p)
+				if len(f) != 2 {
+					return fail(fmt.Errorf("rec parameters need a type: %q", p))
+				}
+				sf.Params = append(sf.Params, f[0])
+				sf.PTypes = append(sf.PTypes, f[1])
+			}
+			body, err := parseSpecExpr(strings.TrimSpace(rest[eqi+1:]))
+			if err != nil {
+				return fail(err)
+			}
+			sf.Body = body
+			cs.specs[sf.Name] = sf
 		case "spec":
 			// spec name(a, b) = expr
 			i := strings.Index(rest, "=")
